@@ -28,6 +28,19 @@ def find(pattern: str, root, nested=True):
     return Pat(pattern).find(root, nested=nested)
 
 
+def eqv(node, text: str) -> bool:
+    """node is the expression/statement `text` -- exactly, or up to a consistent renaming of local
+    variables that no longer occur in the enclosing function (see srcmodel._soft_binds)."""
+    if node is None:
+        return False
+    if unparse(node) == text:
+        return True
+    try:
+        return Pat(text).match(node) is not None
+    except (SyntaxError, AssertionError):
+        return False
+
+
 def find1(pattern: str, root, what: str = ""):
     r = Pat(pattern).find(root)
     if not r:
